@@ -534,3 +534,50 @@ mod tests {
         assert_eq!(r.1, Some(10));
     }
 }
+
+// DEVIATION-BOUNDED SCHEDULE EXPLORATION
+// ================================================================================================
+
+#[derive(Default, Debug, Clone)]
+pub struct ExploreStats {
+    pub schedules: u64,
+    /// schedules that run some region with >= 2 tasks in a non-submission order
+    pub nontrivial: u64,
+    pub task_runs: u64,
+    /// (threads, regions, regions with >= 2 tasks) of the default schedule
+    pub regions: Vec<(usize, usize, usize)>,
+}
+
+/// Runs `body(tag)` under: the submission-order schedule for every thread count of `ts_all`, and,
+/// for the thread counts of `ts_dev`, every schedule that deviates from it in exactly one region
+/// (every alternative order of `alternatives(m, level)` of every region with m >= 2 tasks).
+/// `body` performs the computation *and* judges it (the tag names the schedule for its reports).
+/// A deviating run must meet the same region with the same number of tasks as the default run.
+pub fn explore(ts_all: &[usize], ts_dev: &[usize], level: u8, mut body: impl FnMut(&str)) -> ExploreStats {
+    let mut st = ExploreStats::default();
+    for &t in ts_all {
+        let tag = format!("T={t} submission order");
+        let c = Controller::new(t, Box::new(|_| Order::Submission));
+        let (_, c) = with_controller(c, || body(&tag));
+        st.schedules += 1;
+        st.task_runs += c.task_runs;
+        let multi: Vec<Region> = c.log.iter().filter(|r| r.tasks >= 2).cloned().collect();
+        st.regions.push((t, c.log.len(), multi.len()));
+        if !ts_dev.contains(&t) {
+            continue;
+        }
+        for r in &multi {
+            for o in alternatives(r.tasks, level) {
+                let tag = format!("T={t} region {} ({} x{}) {:?}", r.id, r.kind, r.tasks, o);
+                let (id, oo) = (r.id, o.clone());
+                let c = Controller::new(t, Box::new(move |x: &Region| if x.id == id { oo.clone() } else { Order::Submission }));
+                let (_, c) = with_controller(c, || body(&tag));
+                assert_eq!(c.log.get(r.id).map(|x| x.tasks), Some(r.tasks), "vrayon replay divergence: region {} changed its task count", r.id);
+                st.schedules += 1;
+                st.nontrivial += 1;
+                st.task_runs += c.task_runs;
+            }
+        }
+    }
+    st
+}
